@@ -278,6 +278,16 @@ def r5_7(cx):
     adv = list(f.calls(SL + '::advance'))
     okb = len(dec) == 1 and len(adv) == 1 and all(any(c.pos == adv[0].pos for c in a.calls()) or is_call(a, AN + '::decrement_count') for a in phi_alts(dec[0].arg(1)))
     cx.check(okb, 'budget', f, dec[0].loc() if dec else None, 'the decrement budget is the number of slices actually advanced (then the remainder)', fail_detail='anchors are decremented by something other than the slices advanced')
+    # ... in every method of the deque that advances the slices, not only in consume
+    for g in method_fns(prog, GD):
+        advs = [c for c in g.calls(SL + '::advance') if rooted_in_param_field(c.arg(0), 'slices')]
+        if not advs:
+            continue
+        decs = list(g.calls(AN + '::decrement_count'))
+        okg = len(advs) == 1 and len(decs) == 1 and g.pos_dominates(advs[0].pos, decs[0].pos) and \
+            all(any(c.pos == advs[0].pos for c in a.calls()) or is_call(a, AN + '::decrement_count') for a in phi_alts(decs[0].arg(1)))
+        cx.check(okg, 'budget:' + short(g.name), g, advs[0].loc(), 'slices.advance(n) is followed by anchor decrements with a budget of exactly the n advanced',
+                 fail_detail='%s advances the slices and decrements the anchors by a different amount (or not at all): a stale anchor count keeps a chunk alive or releases it early' % short(g.name))
     okc = len(adv) == 1 and is_call(adv[0].arg(1), 'Ord::min') and any(is_call(a, 'len') for a in adv[0].arg(1).strip().args)
     cx.check(okc, 'advance-clamped', f, adv[0].loc() if adv else None, 'advance(count.min(slices.len()))', fail_detail='consume advances by an unclamped count')
     pa = prog.fn(GD + '::push_anchor')
